@@ -103,6 +103,15 @@ func famRegistry(w *World, c *Case, rng *rand.Rand) {
 			w.mu.Unlock()
 		},
 		OnReverseTunnelClose: func(ch grpctunnel.TunnelChannel) {
+			// the close callback says the tunnel is gone: from that moment on no view has it (a callback
+			// doing fail-over consults the by-key view right here)
+			if hdl := w.Handler; hdl != nil {
+				inAll, inKey := grpctunnel.VerifReverseListsContain(hdl, AffinityFromMD(ch), ch)
+				if inAll || inKey {
+					w.Violate("C12", "closed-tunnel-still-in-a-view", "inside the close callback of a tunnel the global list still holds it: %v, the list of its key still holds it: %v", inAll, inKey)
+				}
+				w.Stat("registry_close_callback_view_checks", 1)
+			}
 			w.mu.Lock()
 			if t := byChan[ch]; t != nil {
 				t.closes++
